@@ -99,6 +99,8 @@ class Ctx:
         if key not in self.initial:
             if key == "$alloc":
                 self.initial[key] = z3.Int("$alloc@0")
+            elif key.startswith("$cv."):
+                self.initial[key] = z3.Const(key + "@0", sort if sort is not None else z3.IntSort())
             else:
                 if sort is None:
                     raise KeyError("heap array %s has no known sort" % key)
